@@ -10,6 +10,7 @@ import (
 	"os/exec"
 	"runtime"
 	"strconv"
+	"strings"
 	"sync"
 	"time"
 )
@@ -224,4 +225,32 @@ func ServeWorker(handler func(job string) string) {
 			return
 		}
 	}
+}
+
+// CrashInCodeUnderTest: a worker process died with a Go panic / fatal error whose first frame outside the runtime
+// lies in a source file of the repository (not in a harness file, not in verifrt): the code under test crashed.
+// Anything else (killed by the watchdog, out of memory, a harness bug) is not a verdict.
+func CrashInCodeUnderTest(stderr string) bool {
+	i := strings.Index(stderr, "panic: ")
+	if j := strings.Index(stderr, "fatal error: "); i < 0 || (j >= 0 && j < i) {
+		i = j
+	}
+	if i < 0 {
+		return false
+	}
+	if strings.Contains(stderr[i:], "out of memory") || strings.Contains(stderr[i:], "cannot allocate") {
+		return false
+	}
+	for _, line := range strings.Split(stderr[i:], "\n") {
+		line = strings.TrimSpace(line)
+		if !strings.Contains(line, ".go:") || !strings.HasPrefix(line, "/") {
+			continue
+		}
+		if strings.Contains(line, "/src/runtime/") || strings.Contains(line, "/src/testing/") || strings.Contains(line, "/src/internal/") || strings.Contains(line, "/src/sync/") {
+			continue
+		}
+		// first frame outside the runtime
+		return !strings.Contains(line, "zz_verif_") && !strings.Contains(line, "/verifrt/") && !strings.Contains(line, "/verif/rt/")
+	}
+	return false
 }
